@@ -184,6 +184,63 @@ theorem not_mem_ancestors_self (n : Bytes) : n ∉ ancestors n := by
   have := ancestors_length_lt n n h
   omega
 
+/-- `p` is a directory on the way to `n` exactly when `p` is non-empty and `p ++ "/"` is a prefix of `n` -/
+theorem mem_ancestors_iff : ∀ (n p : Bytes), p ∈ ancestors n ↔ p ≠ [] ∧ (p ++ [47]) <+: n := by
+  intro n
+  induction n with
+  | nil =>
+    intro p
+    simp only [ancestors, List.not_mem_nil, false_iff, not_and]
+    intro _ h
+    obtain ⟨t, ht⟩ := h
+    cases p <;> simp at ht
+  | cons b rest ih =>
+    intro p
+    have hmem : p ∈ ancestors (b :: rest) ↔ (rest.head? = some 47 ∧ p = [b]) ∨ ∃ q ∈ ancestors rest, p = b :: q := by
+      simp only [ancestors]
+      split
+      · rename_i hh
+        simp only [List.mem_cons, List.mem_map, hh, true_and]
+        constructor
+        · rintro (h | ⟨q, hq, rfl⟩)
+          · exact Or.inl h
+          · exact Or.inr ⟨q, hq, rfl⟩
+        · rintro (h | ⟨q, hq, rfl⟩)
+          · exact Or.inl h
+          · exact Or.inr ⟨q, hq, rfl⟩
+      · rename_i hh
+        simp only [List.mem_map, hh, false_and, false_or]
+        constructor
+        · rintro ⟨q, hq, rfl⟩; exact ⟨q, hq, rfl⟩
+        · rintro ⟨q, hq, rfl⟩; exact ⟨q, hq, rfl⟩
+    rw [hmem]
+    constructor
+    · rintro (⟨hh, rfl⟩ | ⟨q, hq, rfl⟩)
+      · refine ⟨by simp, ?_⟩
+        cases rest with
+        | nil => simp at hh
+        | cons c r =>
+          simp only [List.head?_cons, Option.some.injEq] at hh
+          subst hh
+          exact ⟨r, by simp⟩
+      · obtain ⟨hq0, t, ht⟩ := (ih q).mp hq
+        exact ⟨by simp, t, by simp [← ht]⟩
+    · rintro ⟨hp, t, ht⟩
+      cases p with
+      | nil => exact absurd rfl hp
+      | cons c q =>
+        simp only [List.cons_append, List.cons.injEq] at ht
+        obtain ⟨rfl, hrest⟩ := ht
+        cases q with
+        | nil =>
+          left
+          simp only [List.nil_append] at hrest
+          exact ⟨by simp [← hrest], rfl⟩
+        | cons e q' =>
+          right
+          exact ⟨e :: q', (ih (e :: q')).mpr ⟨by simp, t, hrest⟩, rfl⟩
+
+
 theorem mem_addDirs (x : Bytes) : ∀ (ps dirs : List Bytes), x ∈ Disk.addDirs dirs ps ↔ x ∈ dirs ∨ x ∈ ps := by
   intro ps
   induction ps with
